@@ -3,6 +3,7 @@ package bebop
 import (
 	"bytes"
 	"fmt"
+	gotoken "go/token"
 	"io"
 	"os"
 	"path"
@@ -805,7 +806,23 @@ func unexposeName(name string) string {
 	if name == "" {
 		return ""
 	}
-	return strings.ToLower(string(name[0])) + name[1:]
+	lowered := strings.ToLower(string(name[0])) + name[1:]
+	if gotoken.IsKeyword(lowered) || (lowered != name && goPredeclared[lowered]) {
+		// `type`, `func` cannot name a field or a parameter; a definition called Nil or
+		// String must not become the type `nil` or `string`
+		lowered += "_"
+	}
+	return lowered
+}
+
+// goPredeclared lists Go's predeclared types and constants; an unexported definition
+// named like one of them would shadow it for the rest of the generated package.
+var goPredeclared = map[string]bool{
+	"any": true, "bool": true, "byte": true, "comparable": true, "complex64": true, "complex128": true,
+	"error": true, "float32": true, "float64": true, "int": true, "int8": true, "int16": true,
+	"int32": true, "int64": true, "rune": true, "string": true, "uint": true, "uint8": true,
+	"uint16": true, "uint32": true, "uint64": true, "uintptr": true,
+	"true": true, "false": true, "iota": true, "nil": true,
 }
 
 func writeWrappers(w *iohelp.ErrorWriter, name string, isEmpty bool, settings GenerateSettings) {
